@@ -204,3 +204,56 @@ def counting_lemmas(task):
     # same date twice: second call is ignored
     out["samples"].append(dict(lemma="RunEveryNPeriods fires on distinct date k+1 iff k-offset == n*fires (i.e. (k-offset) mod n == 0)"))
     return out
+
+
+def constructor_task(task):
+    """the date / counting schedulers keep their parameters as given: every `self.<field> = <expr>` of their __init__ stores the parameter itself,
+    `pd.to_datetime(parameter)` (the same instant, intraday part included) or a list of those - nothing that rounds, shifts or truncates it.
+    AST obligation on the real source, seen through locals that are assigned once; an expression of another shape leaves it undecided."""
+    import ast
+    from pyvc.source import Program
+
+    prog = Program()
+    out = dict(results=[], samples=[])
+    for cls in ("RunOnDate", "RunAfterDate", "RunAfterDays", "RunEveryNPeriods", "RunOnce"):
+        q = "bt.algos.%s.__init__" % cls
+        if not prog.has(q):
+            continue
+        fn = prog.func(q).node
+        params = {a.arg for a in fn.args.args[1:]} | ({fn.args.vararg.arg} if fn.args.vararg else set())
+        once = {}
+        for n in ast.walk(fn):
+            if isinstance(n, ast.Assign) and len(n.targets) == 1 and isinstance(n.targets[0], ast.Name):
+                once.setdefault(n.targets[0].id, []).append(n.value)
+
+        def see(v):
+            for _ in range(4):
+                if isinstance(v, ast.Name) and v.id not in params and len(once.get(v.id, [])) == 1:
+                    v = once[v.id][0]
+            return v
+
+        def is_to_datetime(v, names):
+            return (isinstance(v, ast.Call) and isinstance(v.func, ast.Attribute) and v.func.attr == "to_datetime" and len(v.args) == 1 and not v.keywords
+                    and isinstance(see(v.args[0]), ast.Name) and see(v.args[0]).id in names)
+
+        def classify(v, names):
+            v = see(v)
+            if isinstance(v, ast.Constant) or (isinstance(v, ast.Name) and v.id in names) or is_to_datetime(v, names):
+                return "kept"
+            if isinstance(v, ast.ListComp) and len(v.generators) == 1 and isinstance(v.generators[0].target, ast.Name) and not v.generators[0].ifs \
+                    and isinstance(see(v.generators[0].iter), ast.Name) and see(v.generators[0].iter).id in names:
+                return classify(v.elt, names | {v.generators[0].target.id})
+            # something is applied on top of the parameter (or of its to_datetime): the stored value is no longer the instant / number passed in
+            inner = [x for x in ast.walk(v) if (isinstance(x, ast.Name) and x.id in names)]
+            return "altered" if inner else "unknown"
+
+        for n in ast.walk(fn):
+            if isinstance(n, ast.Assign) and len(n.targets) == 1 and isinstance(n.targets[0], ast.Attribute) and isinstance(n.targets[0].value, ast.Name) and n.targets[0].value.id == "self":
+                field = n.targets[0].attr
+                if field not in params:
+                    continue      # derived state (counters, flags): the __call__ contracts speak about it; here only the fields that carry a parameter
+                c = classify(n.value, set(params))
+                verdict = {"kept": "proved", "altered": "refuted", "unknown": "unknown"}[c]
+                out["results"].append(dict(id="%s.__init__/%s-is-the-parameter-as-given" % (cls, n.targets[0].attr), kind="post", props=["C12"], verdict=verdict, backend="ast-scan", secs=0.0, func=q,
+                                           model=dict(stored=ast.unparse(n.value)[:120]) if verdict == "refuted" else None, reason=("unclassified expression %s" % ast.unparse(n.value)[:120]) if verdict == "unknown" else None))
+    return out
